@@ -60,11 +60,11 @@ def engine_cases(ctx, n):
 
 # ------------------------------------------------------------------ query_csv with a join file
 
-def csv_cases(ctx, n):
+def csv_cases(ctx, n, names_only=False):
     r = ctx.rng
     out = []
     for i in range(n):
-        with_headers = r.random() < 0.5
+        with_headers = names_only or r.random() < 0.5
         A = [[r.choice(['k', 'm', 'z']), str(r.randint(1, 9))] for _ in range(r.randint(0, 5))]
         B = [[r.choice(['k', 'm', 'y']), 'w%d' % j] for j in range(r.randint(0, 5))]
         hdrA, hdrB = ['ka', 'na'], ['kb', 'wb']
@@ -77,7 +77,7 @@ def csv_cases(ctx, n):
         where = r.random() < 0.3
         if where:
             qa['where'] = ('ne', ('fld', 'a', 1), ('lit', '5'))
-        names = with_headers and r.random() < 0.7          # column-name variables from the CSV header lines (C09's CSV source, rbql-js)
+        names = with_headers and (names_only or r.random() < 0.7)          # column-name variables from the CSV header lines (C09's CSV source, rbql-js)
         if names:
             a2, b2, a1, b1 = r.choice(['a.na', 'a["na"]', "a['na']"]), r.choice(['b.wb', 'b["wb"]']), r.choice(['a.ka', 'a["ka"]']), r.choice(['b.kb', "b['kb']"])
         else:
@@ -85,11 +85,17 @@ def csv_cases(ctx, n):
         on = '%s == %s' % ((a1, b1) if r.random() < 0.7 else (b1, a1))
         q = 'select %s, %s%s %s @JOIN@ on %s%s' % (a2, b2, ', bNR' if bnr else '', spelling, on, (' where %s != "5"' % a2) if where else '')
         missing = r.random() < 0.08
+        nojoin = r.random() < (0.5 if names_only else 0.15)
+        if nojoin:
+            # the input file alone: a.name / a["name"] from its header line, NR counts data records
+            qa = dict(qa, join=None, kind=('select', [('expr', ('fld', 'a', 1)), ('expr', ('fld', 'a', 0)), ('expr', ('NR',))]))
+            q = 'select %s, %s, NR%s' % (a2, a1, (' where %s != "5"' % a2) if where else '')
+            missing, bnr = False, False
         c = {'part': PART, 'kind': 'csvjoin', 'impl': 'js', 'qjs': q, 'q': q, 'qa': qa, 'A': A, 'B': B, 'with_headers': with_headers,
              'hdrA': hdrA if with_headers else None, 'hdrB': hdrB if with_headers else None,
              'in_lines': ([','.join(hdrA)] if with_headers else []) + [','.join(x) for x in A],
              'join_lines': None if missing else ([','.join(hdrB)] if with_headers else []) + [','.join(x) for x in B],
-             'join_name': r.choice(['jt.csv', 'second.tsv', 'J2']), 'join_abs': r.random() < 0.4, 'bulk': r.random() < 0.5, 'missing': missing}
+             'join_name': r.choice(['jt.csv', 'second.tsv', 'J2']), 'join_abs': r.random() < 0.4, 'bulk': r.random() < 0.5, 'missing': missing, 'nojoin': nojoin}
         out.append(c)
     return out
 
@@ -107,11 +113,12 @@ def csv_expected(cases):
             continue
         rows = [['' if v is None else str(v) for v in e[1]] for e in o['events'] if e[0] == 'W']
         warns = []
-        if c['with_headers']:
+        if c['with_headers'] and not c.get('nojoin'):
             warns.append('join_header')
         if any(v is None for e in o['events'] if e[0] == 'W' for v in e[1]):
             warns.append('null_output')
-        exp.append({'rows': rows, 'error': None, 'warnings': sorted(warns), 'header': ['na', 'wb'] if c['with_headers'] else None})
+        exp.append({'rows': rows, 'error': None, 'warnings': sorted(warns),
+                    'header': (['na', 'ka', 'NR'] if c.get('nojoin') else ['na', 'wb']) if c['with_headers'] else None})
     return res, exp
 
 
@@ -130,9 +137,9 @@ def csv_describe(c, e, g):
         json.dumps(c['in_lines']), json.dumps(c['join_lines']), json.dumps(e), json.dumps(g)[:400])
 
 
-def run(ctx, theorem):
+def run_engine(ctx, theorem, n):
     m = c19()
-    ecases = engine_cases(ctx, 400 if ctx.tier == 'quick' else 40000)
+    ecases = engine_cases(ctx, n)
     args, model, exp, got = m.evaluate(ctx, ecases)
     ctx.compare(ecases, exp, got, theorem + ' ; C14_join_build_error (rbql-js, ragged tables under a join)', rel=m.rel, describe=m.describe,
                 corrupt=lambda e: {'events': [['W', ['CANARY'], True]], 'pulls': 0, 'error': None})
@@ -142,6 +149,14 @@ def run(ctx, theorem):
             continue
         ctx.stat('covjsjoin_engine_' + ('error_%s%s' % (e['error'][0], '_B' if e['error'][2] == 'B' else '') if e['error'] else 'ok'))
         ctx.nontriv((PART, c['qjs'], json.dumps(c['A']), json.dumps(c['B'])))
+    ctx.count(len(ecases))
+    ctx.rule += ('; rbql-js joins over ragged tables (props/cov_jsjoin.py): %d queries - a B / A record lacking a key field, 1-2 keys, bNR components, UPDATE - against the engine model '
+                 '(error class and record number, rows)') % len(ecases)
+    return ecases
+
+
+def run(ctx, theorem):
+    ecases = run_engine(ctx, theorem, 400 if ctx.tier == 'quick' else 40000)
     ccases = csv_cases(ctx, 160 if ctx.tier == 'quick' else 8000)
     craw, cexp = csv_expected(ccases)
     cgot = lib.run_impl_js('cov_jsjoin', ccases, shards=8, extra_env={'VERIF_SCRATCH': lib.BUILD})
@@ -152,10 +167,23 @@ def run(ctx, theorem):
         if c['missing']:
             ctx.stat('covjsjoin_csv_missing_file')
         ctx.nontriv((PART, c['qjs'], json.dumps(c['in_lines']), json.dumps(c['join_lines']), c['join_abs'], c['bulk']))
-    ctx.count(len(ecases) + len(ccases))
-    ctx.rule += ('; JavaScript join legs (props/cov_jsjoin.py): %d joins over ragged tables (a B / A record lacking a key field, 1-2 keys, bNR components) through rbql-js against the '
-                 'engine model; %d rbql-js query_csv runs with a JOIN against a second CSV file (relative / absolute path x bulk_read x headers x column-name variables x missing '
-                 'file): rows, header, warning kinds and error class == engine model on the two tables, both files unchanged') % (len(ecases), len(ccases))
+    ctx.count(len(ccases))
+    ctx.rule += ('; %d rbql-js query_csv runs with a JOIN against a second CSV file (relative / absolute path x bulk_read x headers x column-name variables x missing '
+                 'file): rows, header, warning kinds and error class == engine model on the two tables, both files unchanged') % len(ccases)
+
+
+def run_names(ctx, theorem, n):
+    """C09's CSV source for rbql-js: a.name / a["name"] / b.name bound through the header LINES of the input and join files"""
+    ccases = csv_cases(ctx, n, names_only=True)
+    craw, cexp = csv_expected(ccases)
+    cgot = lib.run_impl_js('cov_jsjoin', ccases, shards=8, extra_env={'VERIF_SCRATCH': lib.BUILD})
+    ctx.compare(ccases, cexp, cgot, theorem + ' (rbql-js query_csv: column-name variables from CSV header lines)', rel=csv_rel, describe=csv_describe,
+                corrupt=lambda e: {'rows': [['CANARY']], 'error': None, 'warnings': ['CANARY'], 'header': ['CANARY']})
+    ctx.count(len(ccases))
+    ctx.stat('covjsjoin_csv_header_name_cases', len(ccases))
+    for c in ccases:
+        ctx.nontriv((PART, c['qjs'], json.dumps(c['in_lines']), json.dumps(c['join_lines']), c['join_abs'], c['bulk']))
+    ctx.rule += '; rbql-js query_csv with headers: %d queries spelling columns as a.name / a["name"] / b.name over an input (and join) CSV file against the engine model (header line never data, NR from 1)' % len(ccases)
 
 
 def replay(ctx, case, theorem):
